@@ -169,11 +169,31 @@ func c05Main(r *run.Runner) {
 		pr := gen.Print(gen.Single(joins[item]))
 		c05One(w, pr.Layout(pr.Uniform(" ")).Source)
 	})
+	// wide families (k operands / columns / terms / operators / joins / nested right-hand sides for every wide size)
+	var wides []string
+	for _, k := range wideSizes(r.Thorough()) {
+		for _, f := range wideExprFamilies() {
+			if f.max > 0 && k > f.max {
+				continue
+			}
+			if f.hot != nil {
+				wides = append(wides, "T | where "+f.hot(k, k/2), "T | extend "+f.hot(k, k-1)+" | summarize max(a) by "+f.hot(k, 0))
+			} else {
+				wides = append(wides, "T | where "+f.text(k), "T | extend "+f.text(k)+" | summarize max(a) by "+f.text(k))
+			}
+		}
+		for _, f := range append(wideProgFamilies(), wideJoinFamilies()...) {
+			if f.max == 0 || k <= f.max {
+				wides = append(wides, f.text(k), "U | join kind=inner ("+f.text(k)+") on k | count")
+			}
+		}
+	}
+	r.Sweep("wide", int64(len(wides)), func(w *run.Worker, item int64) { c05One(w, wides[item]) })
 	b3 := map[string]any{}
 	if c05Pipelines != nil {
 		b3 = c05Pipelines(r)
 	}
-	r.Extra["bounds"] = map[string]any{"token_sequences": b1, "corruptions": b2, "corpus_programs": len(corpus), "expr_internal_nodes": N, "pipelines": b3, "join_programs": len(joins)}
+	r.Extra["bounds"] = map[string]any{"token_sequences": b1, "corruptions": b2, "corpus_programs": len(corpus), "expr_internal_nodes": N, "pipelines": b3, "join_programs": len(joins), "wide_programs": len(wides)}
 	r.Sample("T | take - 1 | where 'x' | as by")
 	r.Sample("T | join ( R | join ( C ) on k ) on k | count")
 }
